@@ -20,6 +20,10 @@ class Deadlock(Exception):
     """Nothing is runnable and no timer is pending while the main coroutine is unfinished."""
 
 
+class BusyLoop(Exception):
+    """The loop keeps running callbacks without virtual time ever advancing (a spin)."""
+
+
 class VirtualTimeLimit(Exception):
     """Virtual time cap for one case exceeded (only periodic timers keep firing)."""
 
@@ -46,7 +50,16 @@ class _FakeSelector(selectors.BaseSelector):
         loop = self._loop
         if timeout is None:
             raise Deadlock("deadlock at virtual time %.6f" % loop._vtime)
+        if timeout <= 0:
+            # every loop iteration costs a little time, as on a real clock; without this a
+            # deadline that is a few ulps away is never reached (now + 1e-18 == now)
+            loop._vtime += loop.tick
+            loop._spin += 1
+            if loop._spin > loop.spin_cap:
+                raise BusyLoop("%d loop iterations without virtual time advancing at %.6f"
+                               % (loop._spin, loop._vtime))
         if timeout > 0:
+            loop._spin = 0
             sched = loop._scheduled
             if sched:
                 when = sched[0]._when
@@ -71,8 +84,14 @@ class VirtualLoop(asyncio.SelectorEventLoop):
         self.events = 0            # timer firings + network deliveries
         self.on_event = None       # callback(n) after each event
         self.net = None
+        self._spin = 0
+        self.spin_cap = 200000
+        self.tick = 1e-6
+        self.exc_log = []          # contexts passed to the loop's exception handler
         super().__init__(selector=_FakeSelector(self))
         self._clock_resolution = 1e-9
+        self.set_exception_handler(lambda loop, ctx: self.exc_log.append(
+            {"message": ctx.get("message"), "exception": repr(ctx.get("exception"))}))
 
     def time(self):
         return self._vtime
@@ -103,12 +122,23 @@ class VirtualLoop(asyncio.SelectorEventLoop):
     async def getaddrinfo(self, host, port, **kw):  # never touch real DNS
         return [(2, 1, 6, "", (host, port))]
 
-    def pending_timers(self):
+    def pending_timers(self, include_harness=False):
         out = []
         for h in self._scheduled:
-            if not h._cancelled:
-                out.append(h)
+            if h._cancelled:
+                continue
+            if not include_harness and is_harness_callback(getattr(h._callback, "_v_inner", h._callback)):
+                continue
+            out.append(h)
         return out
+
+
+def is_harness_callback(cb):
+    """True for timers created by the verification harness itself (simulated brokers etc.)."""
+    f = getattr(cb, "__func__", cb)
+    f = getattr(f, "func", f)            # functools.partial
+    mod = getattr(f, "__module__", "") or ""
+    return mod.startswith(("vlib.", "props."))
 
 
 class TimeShim(types.ModuleType):
@@ -296,17 +326,25 @@ class ServerConn:
         self.client_closed = False
         self._c2s_t = 0.0
         self._s2c_t = 0.0
+        self._c2s_q = []
+        self._s2c_q = []
+        self._notified = False
         self.raw_mode = False         # frames are not length-prefixed requests (SASL legacy)
 
-    # client -> server
+    # client -> server.  Delivery callbacks pop a FIFO, so the byte order never depends on
+    # how the loop breaks ties between timers with equal deadlines.
     def _client_wrote(self, data):
         if self.closed:
             return
         t = max(self._c2s_t, self.loop._vtime + self.net.latency())
         self._c2s_t = t
-        self.loop.call_at(t, self._arrive, data)
+        self._c2s_q.append((data, self.loop._vtime))
+        self.loop.call_at(t, self._arrive)
 
-    def _arrive(self, data):
+    def _arrive(self):
+        if not self._c2s_q:
+            return
+        data, t_written = self._c2s_q.pop(0)
         if self.closed:
             return
         self.buf += data
@@ -316,15 +354,23 @@ class ServerConn:
                 break
             frame = bytes(self.buf[4:4 + n])
             del self.buf[:4 + n]
-            self.handler.on_frame(self, frame)
+            self.handler.on_frame(self, frame, t_written)
 
     def _client_closed(self):
         self.client_closed = True
-        if not self.closed:
-            self.closed = True
-            h = getattr(self.handler, "on_disconnect", None)
-            if h:
+        self.closed = True
+        self._notify_disconnect(soon=True)
+
+    def _notify_disconnect(self, soon=False):
+        if self._notified:
+            return
+        self._notified = True
+        h = getattr(self.handler, "on_disconnect", None)
+        if h:
+            if soon:
                 self.loop.call_soon(h, self)
+            else:
+                h(self)
 
     # server -> client
     def send_frame(self, payload, delay=None, chunks=None):
@@ -340,13 +386,21 @@ class ServerConn:
         for i, p in enumerate(pieces):
             if i:
                 t += self.net.chunk_gap()
-            self.loop.call_at(t, self._deliver, p)
+            self._s2c_q.append(("data", p))
+            self.loop.call_at(t, self._deliver)
         self._s2c_t = t
 
-    def _deliver(self, piece):
+    def _deliver(self):
+        if not self._s2c_q:
+            return
+        kind, arg = self._s2c_q.pop(0)
+        if kind == "close":
+            self._do_close(arg)
+            return
         if self.closed or self.transport is None:
             return
-        self.transport._feed(piece)
+        self.loop.events += 0
+        self.transport._feed(arg)
 
     def close(self, delay=0.0, reset=False):
         """Server closes the connection (EOF, or RST when reset)."""
@@ -354,15 +408,14 @@ class ServerConn:
             return
         t = max(self._s2c_t, self.loop._vtime + delay)
         self._s2c_t = t
-        self.loop.call_at(t, self._do_close, reset)
+        self._s2c_q.append(("close", reset))
+        self.loop.call_at(t, self._deliver)
 
     def _do_close(self, reset):
-        if self.closed:
+        if self.closed and self._notified:
             return
         self.closed = True
-        h = getattr(self.handler, "on_disconnect", None)
-        if h:
-            h(self)
+        self._notify_disconnect()
         if self.transport is not None:
             self.transport._remote_close(ConnectionResetError("simulated reset") if reset else None)
 
@@ -469,7 +522,7 @@ def run_case(main_factory, *, net_kwargs=None, vtime_cap=3600.0, setup=None):
         if setup:
             setup(loop, net)
         result = loop.run_until_complete(main_factory(loop, net))
-    except (Deadlock, VirtualTimeLimit) as e:
+    except (Deadlock, VirtualTimeLimit, BusyLoop) as e:
         exc = e
     except BaseException as e:  # noqa
         exc = e
